@@ -20,7 +20,8 @@ def generate_traced(params):
     -> (scenario | None, info dict)."""
     import nasim
     p = dict(params)
-    if p.get("address_space_bounds") is not None:
+    if p.get("address_space_bounds") is not None and \
+            p.get("seed", 0) % 2 == 0:
         p["address_space_bounds"] = tuple(p["address_space_bounds"])
     info = {"lines": 0, "draws": 0}
     st = np.random.get_state()
@@ -119,7 +120,7 @@ def c15_check(params, scen, info, counters):
     def probs_ok(defs, spec, what):
         vals = [float(d["prob"]) for d in defs.values()]
         for v in vals:
-            if not (0.0 < v <= 1.0) and not (spec is None and v == 0.0):
+            if not (0.0 < v <= 1.0):
                 bad(f"{what} probability outside (0, 1]", prob=v)
         if isinstance(spec, float) and any(v != spec for v in vals):
             bad(f"{what} probabilities != requested value", got=vals,
@@ -182,7 +183,8 @@ def c15_check(params, scen, info, counters):
     want_b = tuple(p["address_space_bounds"]) if \
         p.get("address_space_bounds") is not None else \
         (len(subnets), max(subnets))
-    if tuple(b) != want_b:
+    if b is None or tuple(b) != want_b or \
+            tuple(scen.address_space_bounds) != want_b:
         bad("address-space bounds not honoured", got=b, expected=want_b)
     for k in ("service_scan_cost", "os_scan_cost", "subnet_scan_cost",
               "process_scan_cost"):
